@@ -362,8 +362,14 @@ fn c14_law_universe(rep: &mut Report, tier: Tier, leaves: &[RV], keys: &[&str], 
             if eq && hashes[i] != hashes[j] {
                 t.violation("", "equal values hash differently".to_string(), case());
             }
-            if (a <= b) != (c != Greater) || (a < b) != (c == Less) {
+            if (a <= b) != (c != Greater) || (a < b) != (c == Less) || (a > b) != (c == Greater) || (a >= b) != (c != Less) {
                 t.violation("", "comparison operators disagree with cmp".to_string(), case());
+            }
+            if let (Value::Object(x), Value::Object(y)) = (a, b) {
+                let oc = x.cmp(y);
+                if oc != c || x.partial_cmp(y) != Some(c) || (x < y) != (c == Less) || (x <= y) != (c != Greater) || (x > y) != (c == Greater) || (x >= y) != (c != Less) || (x == y) != eq || (x != y) == eq {
+                    t.violation("", format!("the bare objects compare differently (cmp {oc:?}, operators) from the values holding them (cmp {c:?})"), case());
+                }
             }
             // clones equal their originals - also when the clone is written over an existing
             // value with clone_from (whatever that value held before), alone and as array items
@@ -491,6 +497,14 @@ fn wide_laws_one(n: usize, t: &mut Tally) {
                 }
                 if structural && std_hash(&objs[a]) != std_hash(&objs[b]) {
                     t.violation("", format!("n={n}: equal objects hash differently"), case(a, b, None));
+                }
+                // the comparison operators are provided methods that an impl may override: they
+                // must say what cmp says, on the bare objects too
+                {
+                    let (x, y) = (&objs[a], &objs[b]);
+                    if (x < y) != (o == Ordering::Less) || (x <= y) != (o != Ordering::Greater) || (x > y) != (o == Ordering::Greater) || (x >= y) != (o != Ordering::Less) || x.max(y) != (if o == Ordering::Greater { x } else { y }) || x.min(y) != (if o == Ordering::Greater { y } else { x }) {
+                        t.violation("", format!("n={n}: the operators < <= > >= (or min / max) on [{}], [{}] disagree with cmp = {o:?}", variants[a].0, variants[b].0), case(a, b, None));
+                    }
                 }
                 // the same through Value
                 let (va, vb) = (Value::Object(objs[a].clone()), Value::Object(objs[b].clone()));
